@@ -59,6 +59,13 @@ func init() {
 				}
 				cases = append(cases, cs)
 			}
+			// track counts at and beyond what an SMF header can declare (16 bits): the file must still say what it holds, or crd must refuse
+			for _, tr := range []int{255, 256, 4000, 65535, 65536, 70000} {
+				if c.quick() && (tr == 4000 || tr == 65535) {
+					continue
+				}
+				cases = append(cases, Case{"doc": Doc{{Deg: "1", Sym: "7", Vals: []Frac{{1, 1}}}}, "tracks": tr, "program": -1, "instrument": "\x00default", "ofile": false, "flags": Flags{}, "huge": true})
+			}
 			// every program number once, on a tiny document
 			if !c.quick() {
 				for p := 0; p < 256; p++ {
@@ -98,6 +105,18 @@ func init() {
 			}
 			if len(out) == 0 {
 				return []Rec{{"kind": "nofile"}}
+			}
+			if cb(k, "huge") {
+				// too many bytes to walk one TLC state per byte: the strict reader (bound to SMF.tla by every other record) summarises it
+				f := smf.Parse(out)
+				eots := 0
+				for _, e := range f.Events {
+					if e.Kind == smf.KindMeta && e.A == smf.MetaEOT {
+						eots++
+					}
+				}
+				return []Rec{{"kind": "hugefile", "sub": "huge", "tracks": ci(k, "tracks"), "bytes": len(out), "declared": f.NTracks, "format": f.Format,
+					"readerOk": f.Err == "", "readerErr": f.Err, "eots": eots}}
 			}
 			recs := []Rec{fileRec(out, ci(k, "tracks"))}
 			if !cb(k, "ofile") && !cb(k, "debug") {
